@@ -118,7 +118,7 @@ Definition parse_header (isreq : bool) (h : hconn) (line : list byte) : hconn * 
   end.
 
 (* nni_url_canonify_uri, restricted: on URIs made of unreserved characters and
-   single slashes without dot segments it is the identity; a '%' not followed
+   single slashes without dot segments (dots only after a plain character) it is the identity; a '%' not followed
    by two hex digits is an error; anything else is outside the model. *)
 Definition is_hex (c : byte) : bool := is_digit c || is_upper_hex c || is_lower_hex c.
 Definition uri_plain (c : byte) : bool :=
@@ -126,7 +126,9 @@ Definition uri_plain (c : byte) : bool :=
 Fixpoint uri_simple (prev : byte) (l : list byte) : bool :=
   match l with
   | [] => true
-  | c :: r => ((uri_plain c) || ((c =? 47) && negb (prev =? 47))) && uri_simple c r
+  | c :: r => ((uri_plain c) || ((c =? 47) && negb (prev =? 47))
+               || ((c =? 46) && uri_plain prev))      (* a dot inside a segment, after a plain character *)
+              && uri_simple c r
   end.
 Fixpoint bad_escape (l : list byte) : bool :=
   match l with
